@@ -1072,7 +1072,7 @@ def _gen_block(stmts, env, funcs, limit=10000):
             try:
                 try:
                     r = yield from _gen_block(s.body, env, funcs, limit)
-                except (Raised, IndexError, KeyError, ZeroDivisionError, TypeError, AttributeError, ValueError) as ex:
+                except _BODY_ERRORS as ex:
                     h = _matching_handler(s, ex)
                     if h is None:
                         raise
@@ -1190,7 +1190,9 @@ def _cm_call(cm, name, *args):
     return getattr(cm, name)(*args)
 
 
-_BODY_ERRORS = (Raised, IndexError, KeyError, ZeroDivisionError, TypeError, AttributeError, ValueError, RuntimeError, OverflowError)
+_BODY_ERRORS = (Raised, IndexError, KeyError, ZeroDivisionError, TypeError, AttributeError, ValueError, RuntimeError, OverflowError, AssertionError, StopIteration, NameError)
+# what the interpreted program itself may raise (as opposed to Unsupported: a limit of the interpreter)
+PROGRAM_ERRORS = _BODY_ERRORS
 
 
 def _run_with(s, k, env, funcs, limit):
@@ -1215,12 +1217,19 @@ def _run_with(s, k, env, funcs, limit):
 
 
 def _matching_handler(s, ex):
+    import builtins
     exname = ex.name if isinstance(ex, Raised) else type(ex).__name__
+    excls = getattr(builtins, exname, None) if isinstance(ex, Raised) else type(ex)
+    if not (isinstance(excls, type) and issubclass(excls, BaseException)):
+        excls = None
     for h in s.handlers:
         names = [] if h.type is None else [ast.unparse(x).split('.')[-1] for x in (h.type.elts if isinstance(h.type, ast.Tuple) else [h.type])]
-        if h.type is None or exname in names or 'Exception' in names or 'BaseException' in names or \
-                (exname in ('IndexError', 'KeyError') and 'LookupError' in names) or (exname == 'ZeroDivisionError' and 'ArithmeticError' in names):
+        if h.type is None or exname in names or 'BaseException' in names or ('Exception' in names and exname not in ('SystemExit', 'KeyboardInterrupt', 'GeneratorExit')):
             return h
+        for nm in names:            # the hierarchy of the builtin exceptions (LookupError, ArithmeticError, RuntimeError, OSError ...)
+            hc = getattr(builtins, nm, None)
+            if excls is not None and isinstance(hc, type) and issubclass(hc, BaseException) and issubclass(excls, hc):
+                return h
     return None
 
 
@@ -2130,18 +2139,19 @@ def run_block(stmts, env, funcs=None, limit=10000):
         elif isinstance(s, ast.Try):
             try:
                 r = run_block(s.body, env, funcs, limit)
-            except (Raised, IndexError, KeyError, ZeroDivisionError, TypeError, AttributeError, ValueError) as ex:
-                exname = ex.name if isinstance(ex, Raised) else type(ex).__name__
-                r = None
-                for h in s.handlers:
-                    names = [] if h.type is None else [ast.unparse(x).split('.')[-1] for x in (h.type.elts if isinstance(h.type, ast.Tuple) else [h.type])]
-                    if h.type is None or exname in names or 'Exception' in names or 'BaseException' in names or \
-                            (exname in ('IndexError', 'KeyError') and 'LookupError' in names) or (exname == 'ZeroDivisionError' and 'ArithmeticError' in names):
-                        if h.name:
-                            env[h.name] = ex
-                        r = run_block(h.body, env, funcs, limit)
-                        break
-                if r is None:
+            except _BODY_ERRORS as ex:
+                h = _matching_handler(s, ex)
+                if h is None:
+                    if s.finalbody:
+                        run_block(s.finalbody, env, funcs, limit)
+                    raise
+                if h.name:
+                    env[h.name] = ex
+                try:
+                    r = run_block(h.body, env, funcs, limit)
+                except BaseException:
+                    if s.finalbody:
+                        run_block(s.finalbody, env, funcs, limit)
                     raise
             else:
                 if s.orelse:
